@@ -52,6 +52,13 @@ impl Directive for Include
 				return Err(ErrorLevel::Trivial);
 			},
 		};
+		// no conditional assembly exists, so a file that is still being assembled can never be included to an end
+		if ctx.path_stack.iter().any(|open| *open == path || open.canonicalize().is_ok_and(|open| path.canonicalize().is_ok_and(|path| open == path)))
+		{
+			let source = Box::new(IncludeError::Recursive{path});
+			ctx.push_error(args.convert(DirectiveErrorKind::Apply{dir: self.get_name().to_owned(), source}));
+			return Err(ErrorLevel::Fatal);
+		}
 		let mut f = match OpenOptions::new().read(true).open(&path)
 		{
 			Ok(f) => f,
@@ -84,6 +91,7 @@ pub enum IncludeError
 {
 	NoSuchFile{path: PathBuf, err: io::Error},
 	FileRead{path: PathBuf, err: io::Error},
+	Recursive{path: PathBuf},
 	AssemblyFailed{path: PathBuf}, // TODO should reference the original error
 }
 
@@ -95,6 +103,7 @@ impl fmt::Display for IncludeError
 		{
 			Self::NoSuchFile{path, ..} => write!(f, "no such file {}", path.display()),
 			Self::FileRead{path, ..} => write!(f, "could not read file {}", path.display()),
+			Self::Recursive{path} => write!(f, "file {} includes itself", path.display()),
 			Self::AssemblyFailed{path} => write!(f, "assembly of {} failed", path.display()),
 		}
 	}
